@@ -89,7 +89,9 @@ Devs(c, o) == (IF D_AbsentOrNew(c, o) THEN <<>> ELSE <<"AbsentOrNew">>)
 
 PropReport ==
   (TLCGet("level") = 1) =>
-     LET c == TCfg(T)  o == EndObs(T) IN
+     LET c == TCfg(T)
+         \* a tensor that still claims valid() but cannot be read back counts as not valid any more
+         o == [EndObs(T) EXCEPT !.invalid = @ \cup SeqToSet(T.end.unusable)] IN
        /\ (Names(c, o) # <<>> => PrintT(ToJson(<<"viol", tid, Names(c, o)>>)))
        /\ (Devs(c, o) # <<>> => PrintT(ToJson(<<"dev", tid, Devs(c, o)>>)))
 
